@@ -578,13 +578,31 @@ void uninitialized_fill_aux(It first, It last, P const& p, std::true_type)
     }
 }
 
+/// std::uninitialized_fill for interleaved iterators over pixel objects
+template <typename It, typename P>
+BOOST_FORCEINLINE
+void uninitialized_fill_interleaved(It first, It last, P const& p, std::true_type)
+{
+    std::uninitialized_fill(first,last,p);
+}
+
+/// Iterators whose reference is a proxy (bit-aligned pixels): there is no pixel object
+/// to construct in place (placement new would build into the temporary proxy); assign
+template <typename It, typename P>
+BOOST_FORCEINLINE
+void uninitialized_fill_interleaved(It first, It last, P const& p, std::false_type)
+{
+    std::fill(first,last,p);
+}
+
 /// std::uninitialized_fill for interleaved iterators
 /// If an exception is thrown destructs any in-place copy-constructed objects
 template <typename It, typename P>
 BOOST_FORCEINLINE
 void uninitialized_fill_aux(It first, It last, P const& p, std::false_type)
 {
-    std::uninitialized_fill(first,last,p);
+    uninitialized_fill_interleaved(first, last, p,
+        std::is_lvalue_reference<typename std::iterator_traits<It>::reference>());
 }
 
 } // namespace detail
